@@ -413,6 +413,11 @@ class Session:
         try:
             with self:
                 harness.body(self, spec)
+                if self.obligations and self.dead is None:
+                    # vacuity guard (DESIGN 4-iii): the twin obligation `False` must be violated here, i.e. the
+                    # assumptions and the path condition reaching the obligations are satisfiable
+                    r = self._check()
+                    self.obligations.append(Obl("reachable", "witnessed" if r == z3.sat else ("vacuous" if r == z3.unsat else "unknown")))
             if self.dead is not None:
                 if getattr(self, "dead_inconclusive", True):
                     res.status, res.reason = "inconclusive", self.dead
